@@ -205,6 +205,7 @@ fn run_trans(deep: bool) -> (String, Vec<trans::Failure>) {
     });
     let t = totals.lock().unwrap();
     let mut fails = fails.into_inner().unwrap();
+    trans::check_precedence(&mut fails);
     fails.sort_by(|a, b| (a.property, &a.input).cmp(&(b.property, &b.input)));
     (format!("\"rules\": {}, \"rules_accepted_by_natural\": {}, \"rule_interpretation_pairs\": {}, \"interpretations_per_rule\": {}", t.0, t.1, t.2, n_interp), fails)
 }
